@@ -107,6 +107,8 @@ def ev(node, env):
                 ok = left is right
             elif isinstance(op, ast.IsNot):
                 ok = left is not right
+            elif isinstance(op, (ast.In, ast.NotIn)) and isinstance(right, (dict, list, tuple, set, str, bytes)):
+                ok = (left in right) == isinstance(op, ast.In)
             else:
                 raise Unsupported('comparison %s' % type(op).__name__)
             if not ok:
